@@ -49,17 +49,49 @@ VALUE_PARAMS = {
 }
 
 
+def _untyped_cache_factory(d):
+    """Is `d` (a decorator, or the callee of `NAME = d(func)`) an equality-keyed cache: lru_cache / lru_cache(...) without
+    typed=True, functools.cache?"""
+    txt = A.norm(d.func if isinstance(d, ast.Call) else d)
+    if txt.split(".")[-1] == "lru_cache":
+        return not (isinstance(d, ast.Call) and A.kwarg(d, "typed") is not None and A.norm(A.kwarg(d, "typed")) == "True")
+    return txt in ("functools.cache", "cache")
+
+
+class _WrappedCallable:
+    """`NAME = lru_cache(...)(func)` / `NAME = functools.cache(func)` at module or class level: NAME is a cached callable."""
+    parent = None
+
+    def __init__(self, module, cls, name, node):
+        self.module, self.cls, self.name, self.node = module, cls, name, node
+        self.qual = "%s.%s" % (cls.qual if cls is not None else module.name if hasattr(module, "name") else "?", name)
+        self.file = module.relpath
+
+
 def _equality_cached_functions(ck, modules):
-    """-> {name: FuncInfo} of functions decorated with an equality-keyed cache."""
+    """-> {name: [FuncInfo]} of functions wrapped in an equality-keyed cache, by decorator or by assignment."""
     out = {}
     for modname in modules:
-        for fi in ck.repo.module(modname).all_funcs():
+        mod = ck.repo.module(modname)
+        for fi in mod.all_funcs():
             for d in fi.node.decorator_list:
-                txt = A.norm(d)
-                if "lru_cache" in txt or txt in ("functools.cache", "cache"):
-                    typed = isinstance(d, ast.Call) and A.kwarg(d, "typed") is not None and A.norm(A.kwarg(d, "typed")) == "True"
-                    if not typed:
-                        out.setdefault(fi.name, []).append(fi)
+                if _untyped_cache_factory(d) and ("lru_cache" in A.norm(d) or A.norm(d) in ("functools.cache", "cache")):
+                    out.setdefault(fi.name, []).append(fi)
+        scopes = [(None, mod.tree.body)] + [(c, c.node.body) for c in mod.all_classes()]
+        for (cls, body) in scopes:
+            for st in body:
+                v = st.value if isinstance(st, (ast.Assign, ast.AnnAssign)) else None
+                if not (isinstance(v, ast.Call) and len(v.args) == 1 and not v.keywords):
+                    continue
+                f = v.func
+                # lru_cache(...)(func)  |  lru_cache(func)  |  functools.cache(func)
+                wraps = (isinstance(f, ast.Call) and A.norm(f.func).split(".")[-1] == "lru_cache" and _untyped_cache_factory(f)) or \
+                        (not isinstance(f, ast.Call) and (A.norm(f).split(".")[-1] == "lru_cache" or A.norm(f) in ("functools.cache", "cache")))
+                if not wraps:
+                    continue
+                for t in (st.targets if isinstance(st, ast.Assign) else [st.target]):
+                    if isinstance(t, ast.Name):
+                        out.setdefault(t.id, []).append(_WrappedCallable(mod, cls, t.id, st))
     return out
 
 
